@@ -136,6 +136,27 @@ def run_derived(cfg, drv) -> Outcome:
     return Outcome(key=('derived', form, n, cfg['complex'], cfg['mixed_v']), viol=viol, branches=[f'derived:{form}'], sample=cfg)
 
 
+def real_data_oracle(cfg, built, F, A):
+    """the identity holds 'for real and complex data': a real-valued u or v handed to forward / adjoint (where the operator accepts one) gives
+    what the matrix gives - in particular A^H conjugates the operator's own complex coefficients whatever the dtype of v is"""
+    import torch
+    from harness.core.util import int_tensor
+
+    rng = random.Random(cfg.get('seed', 0) + 17)
+    for which, fn, shape, mat in (('adjoint', built.op.adjoint, built.rng, A), ('forward', built.op.forward, built.dom, F)):
+        x = int_tensor(rng, shape, complex_=False, lo=-5, hi=5).real.to(torch.float64)
+        try:
+            got = fn(x)[0]
+        except (RuntimeError, TypeError, ValueError):
+            continue  # the operator refuses real data (dtype check of the kernel): nothing promised
+        want = mat @ x.reshape(-1).to(mat.dtype)
+        if got.numel() != want.numel() or not bool(((got.reshape(-1).to(torch.complex128) - want.to(torch.complex128)).abs() <= 1e-9 * (1 + want.abs())).all()):
+            return {'signature': f'adjoint:{cfg["kind"]}:real-data',
+                    'what': f'{cfg["kind"]} {({k: v for k, v in cfg.items() if k not in ("kz", "ky", "kx")})}: {which}() of a real-valued (float64) tensor differs from the '
+                            f'operator\'s matrix applied to it, so <A u, v> != <u, A^H v> for real data'}
+    return None
+
+
 def run(cfg, drv) -> Outcome:
     if cfg['kind'] == 'derived':
         return run_derived(cfg, drv)
@@ -144,6 +165,8 @@ def run(cfg, drv) -> Outcome:
     built, F, A, Fm, Am, notes = _ops.matrices(cfg, drv)
     corr = _ops.correspondence(cfg, built, F, A, Fm, Am, notes)
     viol = _ops.adjoint_oracle(cfg, built, F, A)
+    if viol is None:
+        viol = real_data_oracle(cfg, built, F, A)
     key = {k: v for k, v in cfg.items() if k != 'seed'}
     return Outcome(key=key, nontrivial=F.numel() > 1, corr=corr, viol=viol,
                    branches=[f'{cfg["kind"]}:{cfg.get("flavour", cfg.get("mode", ""))}'],
